@@ -36,6 +36,15 @@ func buildAttachment(p *Program, tier string) ([]*Unit, []UnitError) {
 			}
 		}
 	}
+	for _, n := range []string{"appendDecoration", "appendNewLine"} {
+		if wantUnit("decorator." + n) {
+			keys = append(keys, pkgDecorator+"."+n)
+		}
+	}
+	// DecorateNode: the fragment list starts empty and what fragment() leaves is what link() requires
+	if wantUnit("(*decorator.Decorator).DecorateNode") {
+		keys = append(keys, pkgDecorator+".(*Decorator).DecorateNode")
+	}
 	us, es := buildFuncUnits(p, keys, nil)
 	// structural: the only stores to an Attached field of a fragment sit in attachToDecoration
 	ex := p.newExec("attachment-writers")
@@ -123,13 +132,22 @@ func buildAttachment(p *Program, tier string) ([]*Unit, []UnitError) {
 func isAttachObligation(n string) bool {
 	for _, u := range attachUnits {
 		if strings.Contains(n, "(*decorator.fileDecorator)."+u+"#") {
-			return !strings.Contains(n, "#frame:")
+			return true
 		}
 	}
 	for _, t := range fragmentImpls {
 		if strings.Contains(n, "(*decorator."+t+").") {
 			return true
 		}
+	}
+	if strings.Contains(n, "(*decorator.fileDecorator).fragment$") {
+		return true
+	}
+	if strings.HasPrefix(n, "(*decorator.Decorator).DecorateNode#call:decorator.(*fileDecorator).fragment:") || strings.HasPrefix(n, "(*decorator.Decorator).DecorateNode#call:decorator.(*fileDecorator).link:") {
+		return true
+	}
+	if strings.HasPrefix(n, "decorator.appendDecoration#") || strings.HasPrefix(n, "decorator.appendNewLine#") {
+		return true
 	}
 	return strings.Contains(n, "#attach:") || strings.Contains(n, "#iface:")
 }
